@@ -110,6 +110,47 @@ func init() {
 		return tuple{res, iface{}}
 	}
 
+	stat := func(fr *frame, args []value) value {
+		name := argString(args[0])
+		fs := fr.p.FS()
+		zp := fr.i.P.Pkgs[strings.TrimSuffix(zz, ".")]
+		if zp == nil || zp.Type("FileInf") == nil {
+			panic(pathEnd{StUnsupported, "os.Stat needs zzverif.FileInf"})
+		}
+		ft := zp.Type("FileInf").Type()
+		if f := fs.files[name]; f != nil && !f.removed {
+			base := name[strings.LastIndexByte(name, '/')+1:]
+			return tuple{iface{ft, structure{structure{base, int64(len(f.data)), false}}}, iface{}}
+		}
+		for n, f := range fs.files {
+			if !f.removed && strings.HasPrefix(n, strings.TrimSuffix(name, "/")+"/") {
+				base := name[strings.LastIndexByte(name, '/')+1:]
+				return tuple{iface{ft, structure{structure{base, int64(0), true}}}, iface{}}
+			}
+		}
+		return tuple{iface{}, fr.osErr("ErrNotExist", "stat "+name+": no such file or directory")}
+	}
+	if intrinsics["os.Stat"] == nil {
+		intrinsics["os.Stat"] = stat
+	}
+	if intrinsics["os.Lstat"] == nil {
+		intrinsics["os.Lstat"] = stat
+	}
+	intrinsics["os.CreateTemp"] = func(fr *frame, args []value) value {
+		dir, pattern := argString(args[0]), argString(args[1])
+		fs := fr.p.FS()
+		for k := 0; ; k++ {
+			fs.nextObj++
+			name := strings.TrimSuffix(dir, "/") + "/" + strings.Replace(pattern, "*", strconv.Itoa(100000+fs.nextObj), 1)
+			if !strings.Contains(pattern, "*") {
+				name += strconv.Itoa(100000 + fs.nextObj)
+			}
+			if f := fs.files[name]; f == nil || f.removed {
+				return fr.openFile(name, oCREATE|oEXCL|oRDWR)
+			}
+		}
+	}
+
 	intrinsics["(*encoding/json.Encoder).Encode"] = func(fr *frame, args []value) value {
 		enc := args[0].(*value)
 		et := fr.i.P.Pkgs["encoding/json"].Type("Encoder").Type()
